@@ -138,7 +138,12 @@ class Gen:
         if lo is not None and lo.shape == tuple(shape) and lo.dtype == dtype and self.rng.integers(0, 3) > 0:
             import copy
 
-            return copy.deepcopy(lo)  # same memory, independent record
+            fm = copy.deepcopy(lo)  # same memory, independent record
+            if (self.rng.integers(0, 4) == 0 or __import__("os").environ.get("VV_SHIFT_ALWAYS")) and fm.tiles[0] >= fm.shape[0]:
+                # a window of the same shape sliding over the producer's buffer: same layout, type and strides, other base address, partial overlap
+                k = int(self.rng.integers(1, max(2, fm.shape[0])))
+                fm.addresses = [a + k * fm.eff_strides()[0] if i == 0 else a for i, a in enumerate(fm.addresses)]
+            return fm
         return None
 
     def activation(self, dtype, allow_lut=True):
@@ -246,6 +251,10 @@ class Gen:
             dtype = self.rdtype(("INT8", "UINT8", "INT16", "INT32") if sub in ("ADD", "SUB", "MUL") else ("INT8", "UINT8", "INT16"))
             if self.focus == "eltwise-scales":
                 dtype = self.rdtype(("INT8", "UINT8", "INT16", "INT16"))
+        lo_ = self.last_ofm
+        if lo_ is not None and r.integers(0, 3) == 0 and sub not in ("SHR", "SHL", "CLZ") and lo_.dtype in ("INT8", "UINT8", "INT16"):
+            # consume what the previous operation produced (same shape and type): dependent consecutive kernels
+            (oh, ow, oc), dtype = lo_.shape, lo_.dtype
         ifm = self.chain_ifm((oh, ow, oc), dtype) or self.fm((oh, ow, oc), dtype, name="ifm")
         odtype = dtype
         if sub in ("ADD", "SUB", "MUL") and dtype == "INT32":
